@@ -667,6 +667,82 @@ fn run_inner(t: &[&str]) -> String {
         // ---- correspondence with the converter models (Model/Convert{Cfi,Expr,Lists,Attr}.v) ----
         // c12.cficonv <be> <asz> <version> <caf> <daf> <cie-insns hex> <fde-insns hex>
         // FrameTable::from on a one-CIE one-FDE .debug_frame; prints the converted instruction lists
+        // c12.line5 <be> <asz 4|8> <fmt 4|8> <version 2..5> <flags: 1 timestamp, 2 size, 4 md5, 8 source> <nfiles> <seed>
+        // A unit whose line program is built with gimli::write (every combination of the optional DWARF 5 file
+        // entry fields, several directories and files with distinct infos, rows naming every file), then
+        // read, converted, written and read again: same meaning, and the second conversion is a fixpoint.
+        "c12.line5" => {
+            let be = t[1] == "1";
+            let endian = if be { RunTimeEndian::Big } else { RunTimeEndian::Little };
+            let asz: u8 = t[2].parse().unwrap_or(8);
+            let format = if t[3] == "8" { gimli::Format::Dwarf64 } else { gimli::Format::Dwarf32 };
+            let version: u16 = t[4].parse().unwrap_or(5);
+            let flags = u(t[5]);
+            let nfiles = u(t[6]) as usize;
+            let mut rng = Rng(u(t[7]));
+            let encoding = gimli::Encoding { format, version, address_size: asz };
+            let mut dwarf = write::Dwarf::new();
+            let ls = |v: &str, d: &mut write::Dwarf| write::LineString::new(v.as_bytes().to_vec(), encoding, &mut d.line_strings);
+            let info = |i: u64, rng: &mut Rng, d: &mut write::Dwarf| {
+                let mut md5 = [0u8; 16];
+                for (j, b) in md5.iter_mut().enumerate() {
+                    *b = (i as u8).wrapping_mul(17).wrapping_add(j as u8 + 1);
+                }
+                write::FileInfo {
+                    timestamp: 1000 + i * 7 + rng.below(3),
+                    size: 50 + i * 11,
+                    md5,
+                    source: if flags & 8 != 0 { Some(ls(&format!("source text {}", i), d)) } else { None },
+                }
+            };
+            let wd = ls("/work/dir", &mut dwarf);
+            let sf = ls("main.c", &mut dwarf);
+            let fi0 = info(0, &mut rng, &mut dwarf);
+            let mut program = write::LineProgram::new(encoding, gimli::LineEncoding::default(), wd, None, sf, Some(fi0));
+            program.file_has_timestamp = flags & 1 != 0;
+            program.file_has_size = flags & 2 != 0;
+            program.file_has_md5 = flags & 4 != 0;
+            program.file_has_source = flags & 8 != 0;
+            let mut dirs = vec![program.default_directory()];
+            for i in 0..2 {
+                let d = ls(&format!("sub{}", i), &mut dwarf);
+                dirs.push(program.add_directory(d));
+            }
+            let mut files = Vec::new();
+            for i in 0..nfiles {
+                let name = ls(&format!("f{}.c", i), &mut dwarf);
+                let fi = info(i as u64 + 1, &mut rng, &mut dwarf);
+                let dir = dirs[rng.below(dirs.len() as u64) as usize];
+                files.push(program.add_file(name, dir, Some(fi)));
+            }
+            program.begin_sequence(Some(Address::Constant(0x1000)));
+            let mut off = 0u64;
+            for (i, f) in files.iter().enumerate() {
+                program.row().file = *f;
+                program.row().line = 10 + i as u64 * 3;
+                program.row().address_offset = off;
+                program.generate_row();
+                off += 4 + rng.below(8);
+            }
+            program.end_sequence(off + 4);
+            let uid = dwarf.units.add(write::Unit::new(encoding, program));
+            {
+                let unit = dwarf.units.get_mut(uid);
+                let root = unit.root();
+                unit.get_mut(root).set(gimli::DW_AT_name, write::AttributeValue::String(b"main.c".to_vec()));
+                unit.get_mut(root).set(gimli::DW_AT_stmt_list, write::AttributeValue::LineProgramRef);
+                if let Some(f) = files.first() {
+                    let v = unit.add(root, gimli::DW_TAG_variable);
+                    unit.get_mut(v).set(gimli::DW_AT_name, write::AttributeValue::String(b"v".to_vec()));
+                    unit.get_mut(v).set(gimli::DW_AT_decl_file, write::AttributeValue::FileIndex(Some(*f)));
+                }
+            }
+            let secs = match write_sections(&mut dwarf, endian) {
+                Ok(s) => s,
+                Err(x) => return format!("ok skip input-unbuildable:{}", errname(&x)),
+            };
+            roundtrip(&secs, endian)
+        }
         "c12.cficonv" => {
             let asz: usize = t[2].parse().unwrap();
             let sec = frame_section(false, t[1] == "1", asz, t[3].parse().unwrap(), u(t[4]), i(t[5]), 16,
